@@ -1,6 +1,7 @@
 package props
 
 import (
+	"encoding/json"
 	"fmt"
 	"math/rand/v2"
 	"os"
@@ -629,6 +630,13 @@ func (p c10) runEvalAll(x *c10Exec, c *c10Case) c10Verdict {
 	if !e.Failed && !a.Failed && c10RootCopiesOnly[c.Expr] && e.Stdout == "1\n1\n" && a.Stdout == "2\n" {
 		return c10Verdict{Verdict: mon.Finding, Finding: c10FindingRootCopies, Detail: fmt.Sprintf("`%s`: eval collects each copy of the root on its own (1, 1), eval-all collects the two copies together (2)", c.Expr)}
 	}
+	if !e.Failed && !a.Failed && c.Expr == "(., ..) | length * 10" && len(c.Files) == 1 && len(c.Files[0].Docs) == 1 && c10ChildlessJSON(c.Files[0].Docs[0]) {
+		// on a root without children `..` is the root again: the context is two copies of the root, the same
+		// finding through the cross operator (`*` pairs every left result with every right result: 2 x 2)
+		if l := strings.SplitAfter(e.Stdout, "\n"); len(l) == 3 && l[0] == l[1] && l[2] == "" && a.Stdout == l[0]+l[0]+l[0]+l[0] {
+			return c10Verdict{Verdict: mon.Finding, Finding: c10FindingRootCopies, Detail: fmt.Sprintf("`%s` on a root without children: eval multiplies per copy of the root (2 results), eval-all pairs the two copies with each other (4 results)", c.Expr)}
+		}
+	}
 	if e.Failed != a.Failed || (!e.Failed && e.Stdout != a.Stdout) {
 		return c10Verdict{Verdict: mon.Violated, Detail: fmt.Sprintf("[%s] eval and eval-all disagree on a single document\n%s\neval     (failed=%v): %s %s\neval-all (failed=%v): %s %s",
 			x.kind(), c.Cmd, e.Failed, c10Clip(e.Stdout), c10Clip(e.Stderr), a.Failed, c10Clip(a.Stdout), c10Clip(a.Stderr))}
@@ -637,4 +645,19 @@ func (p c10) runEvalAll(x *c10Exec, c *c10Case) c10Verdict {
 		return c10Held("both fail", "error-doc")
 	}
 	return c10Held(fmt.Sprintf("%d bytes equal", len(e.Stdout)))
+}
+
+// c10ChildlessJSON reports whether the JSON text is a scalar or an empty container.
+func c10ChildlessJSON(txt string) bool {
+	var v any
+	if json.Unmarshal([]byte(strings.TrimSpace(txt)), &v) != nil {
+		return false
+	}
+	switch t := v.(type) {
+	case map[string]any:
+		return len(t) == 0
+	case []any:
+		return len(t) == 0
+	}
+	return true
 }
